@@ -13,7 +13,9 @@
      compared ASCII-case-insensitively;
    - `@import` accepts a string, a url token or `url("...")`;
    - output side effects that survive a failed `try_parse` in the @import branch;
-   - `:host` detection returning early at end of input. *)
+   - `@import ... layer(a.b)`: the layer name is written by the value walker (fix 661ebe6);
+   - `:host` detection: the token after `:` is read including whitespace (fix bdd7adf), and the
+     detection returns early at end of input. *)
 From GE Require Export Model.CssOut Model.CssUrlEnc.
 Open Scope N_scope.
 
@@ -72,6 +74,12 @@ Definition tok_sp (st : wstate) (t : tok) (p : pos) (src : option tok) : wstate 
 Fixpoint skip_ws (l : list node) : list node :=
   match l with
   | n :: r => if is_ws_or_comment (node_tok n) then skip_ws r else l
+  | [] => []
+  end.
+
+Fixpoint skip_comments (l : list node) : list node :=
+  match l with
+  | n :: r => if is_comment (node_tok n) then skip_comments r else l
   | [] => []
   end.
 
@@ -300,7 +308,9 @@ Inductive host_try := HostErr | HostDone (rest : list node) (st : wstate).
 Definition host_try_parse (o : opts) (l0 : list node) (endp : pos) (st : wstate) : host_try :=
   match l0 with
   | Leaf TColon _ :: r1 =>
-      match skip_ws r1 with
+      (* the token after the colon is read with next_including_whitespace (fix bdd7adf): comments
+         are skipped, a whitespace token is not `host` *)
+      match skip_comments r1 with
       | [] => HostDone [] st
       | n :: r2 =>
           let start :=
@@ -357,7 +367,8 @@ Fixpoint import_conds (o : opts) (l : list node) (closes : list (tok * pos)) (st
            | Block (TFunc x) p body _ _ =>
                if str_eqb x s_layer then
                  let st1 := tok_at st (TAt x) p (Some (TFunc x)) in
-                 let st2 := cn_body o body true false false st1 in
+                 (* a layer name (`a.b`) is not a selector: value walker, no class handling (fix 661ebe6) *)
+                 let st2 := rpx_body o false body None st1 in
                  let st3 := tok_at st2 TCurly p None in
                  import_conds o r ((TCloseCurly, p) :: closes) st3
                else if str_eqb x s_supports then
